@@ -80,6 +80,44 @@ theorem advFirings_cons (fuel : Nat) (w : World) (target d : Nat) (id : TimerId)
       (d, id, { w with now := max w.now d }) :: advFirings fuel (fireTimer { w with now := max w.now d } id) target := by
   rw [advFirings, h]
 
+/-- the pending timers do not depend on the clock -/
+theorem dueTimers_now (w : World) (n : Nat) : dueTimers ({ w with now := n } : World) = dueTimers w := rfl
+
+/-- **every timer due by the target fires, unless the fuel of `advance` was used up**: if `advance` fired fewer timers
+    than its fuel allows, no pending timer is due at or before the clock it leaves behind. (The driver evaluates the
+    conclusion in every world the correspondence visits — token `LATE!` — so an exhausted fuel cannot pass unnoticed.) -/
+theorem c07_every_due_timer_fired_unless_fuel_ran_out (fuel : Nat) : ∀ (w : World) (target : Nat),
+    advanceUsed fuel w target < fuel →
+    earliest (dueTimers (advance fuel w target)) target = none ∧ (advance fuel w target).now = target := by
+  induction fuel with
+  | zero => intro w target h; exact absurd h (Nat.not_lt_zero _)
+  | succ f ih =>
+    intro w target h
+    rw [advance]
+    rw [advanceUsed] at h
+    cases he : earliest (dueTimers w) target with
+    | none => exact ⟨by rw [dueTimers_now]; exact he, rfl⟩
+    | some r =>
+      obtain ⟨d, id⟩ := r
+      rw [he] at h
+      simp only at h ⊢
+      exact ih _ _ (by omega)
+
+/-- the number of firings is the length of the firing list -/
+theorem advanceUsed_eq_firings (fuel : Nat) : ∀ (w : World) (target : Nat),
+    advanceUsed fuel w target = (advFirings fuel w target).length := by
+  induction fuel with
+  | zero => intro w target; rfl
+  | succ f ih =>
+    intro w target
+    rw [advanceUsed, advFirings]
+    cases he : earliest (dueTimers w) target with
+    | none => rfl
+    | some r =>
+      obtain ⟨d, id⟩ := r
+      simp only [List.length_cons]
+      rw [ih]; omega
+
 /-- non-vacuity: a silent revision-4 websocket session: the first advance fires the ping, the second the deadline
     timer — at 25000 + 20000 exactly — and the session is closed for ping timeout then, not before -/
 example :
